@@ -5,19 +5,20 @@
 set -u
 PID=$1; MD=$2; PKG=$3
 WT=$(mktemp -d /tmp/vm-XXXXXX)
+RE=$(grep -ho "^func Test[A-Za-z0-9_]*" "$MD"/demo_test.go | sed 's/func //' | paste -sd'|')
 export GOFLAGS=-mod=mod GOPROXY=off GOSUMDB=off GOTOOLCHAIN=local
 git -C /repo worktree add -q --detach "$WT" HEAD || exit 2
 cd "$WT"
 res() { echo "$1"; }
 cp "$MD"/demo_test.go "$PKG"/zz_demo_test.go
-go test -vet=off -count=1 -run 'Demo|demo' ./"$PKG"/ > /tmp/vm-clean.txt 2>&1; CLEAN=$?
+go test -vet=off -count=1 -run "^($RE)\$" ./"$PKG"/ > /tmp/vm-clean.txt 2>&1; CLEAN=$?
 rm "$PKG"/zz_demo_test.go
 git apply "$MD"/patch.diff || { echo "PATCH DOES NOT APPLY"; cd /; git -C /repo worktree remove --force "$WT"; exit 3; }
 go build ./... > /tmp/vm-build.txt 2>&1; BUILD=$?
 go test -vet=off -count=1 ./... > /tmp/vm-suite.txt 2>&1; SUITE=$?
 cp "$MD"/demo_test.go "$PKG"/zz_demo_test.go
-go test -vet=off -count=1 -run 'Demo|demo' ./"$PKG"/ > /tmp/vm-mut.txt 2>&1; MUT=$?
+go test -vet=off -count=1 -run "^($RE)\$" ./"$PKG"/ > /tmp/vm-mut.txt 2>&1; MUT=$?
 cd /
 git -C /repo worktree remove --force "$WT"
 echo "$PID $(basename $MD): build=$BUILD suite_with_mutant=$SUITE demo_clean=$CLEAN demo_mutant=$MUT"
-if [ $BUILD -eq 0 ] && [ $SUITE -eq 0 ] && [ $CLEAN -eq 0 ] && [ $MUT -ne 0 ]; then echo CONFIRMED; else echo NOT-CONFIRMED; tail -5 /tmp/vm-clean.txt /tmp/vm-suite.txt /tmp/vm-mut.txt; fi
+if [ $BUILD -eq 0 ] && [ $SUITE -eq 0 ] && [ $CLEAN -eq 0 ] && [ $MUT -ne 0 ]; then echo CONFIRMED; else echo NOT-CONFIRMED; tail -n 5 /tmp/vm-clean.txt; tail -n 5 /tmp/vm-suite.txt; tail -n 5 /tmp/vm-mut.txt; fi
